@@ -37,6 +37,11 @@ def run(ctx):
     fails = []
     for c in e2e:
         fails += fs.collected_rows_failures(c)
+    # records without a time stamp: they belong to no windowed context (masked / UNKNOWN there), whatever the order
+    nat = fs.gen_nat_cases(tier, rng)
+    for c in nat:
+        fails += fs.collected_rows_failures(c)
+    e2e = e2e + nat
     # Config objects reused on another table / edited in place between runs (stale grouping of the calls by context)
     n_re, f_re = fs.object_reuse_failures(rng, 40 if tier == "quick" else 400)
     fails += f_re
